@@ -720,10 +720,10 @@ def shape_of_violation(schema, o, rec):
     if path:
         return f"generate_from_schema:{path}-ignores-sibling-keywords"
     if inner in NUMERIC_CLASSES:
-        if contains_key(schema, ("exclusiveMinimum", "exclusiveMaximum")):
-            return "number-exclusive-bound-misread"
         if has_integer_type_with_fraction(schema, o["value"]):
             return "non-integer-boundary-for-integer-type"
+        if contains_key(schema, ("exclusiveMinimum", "exclusiveMaximum")):
+            return "number-exclusive-bound-misread"
     if top.startswith("object") or top == "valid-object":
         for kw in ("required", "minProperties", "maxProperties", "patternProperties", "additionalProperties"):
             if kw in sdict and py_valid(erase_top(sdict, kw), o["value"]) is True:
@@ -1071,7 +1071,17 @@ def cases_mechanism(chk, drv, ops, vb):
             if agree:
                 spec = mc[i].get("spec", {})
                 if spec and not spec.get("comps_ok", True):
-                    chk.violation(KF_OVERWRITE if r["mode"] == "positive" or True else "", f"case '{r['text']}': component labels {r['comps']} "
+                    # with_container overwrote the label of the very container the case varies (known shape F8c)?
+                    varied = KIND_OF.get(r["parameter_location"] or "")
+                    content = mc[i]["contents"].get(varied or "", {})
+                    hides = (varied is not None and r["comps"].get(varied) == "positive"
+                             and any(m_ == "negative" for _, m_ in content.get("slots", []))
+                             and all(r["comps"].get(k_) == ("negative" if any(m_ == "negative" for _, m_ in c_.get("slots", [])) or
+                                                           "duplicated" in c_ or "removed" in c_ or c_.get("generated") == "negative" or
+                                                           c_.get("body") == "negative" else "positive")
+                                     for k_, c_ in mc[i]["contents"].items() if k_ != varied))
+                    chk.violation(KF_OVERWRITE if hides else "C03:Template:component-label-differs-from-contents",
+                                  f"case '{r['text']}': component labels {r['comps']} "
                                   f"disagree with the labels of the values placed in the containers {mc[i]['contents']}",
                                   {"mechanism": "cases", **inp, "case_index": i, "case": {k: v for k, v in r.items() if k != "values"},
                                    "contents": mc[i]["contents"]})
